@@ -1613,8 +1613,33 @@ func goImportsUsed(w *World, wc *wireCtx, r *Report, prop string) {
 						}
 						return true
 					}
+					// nothing is appended behind header + text
+					var grows func(v ssa.Value, depth int) string
+					grows = func(v ssa.Value, depth int) string {
+						if depth > 4 || v.Referrers() == nil {
+							return ""
+						}
+						for _, r2 := range *v.Referrers() {
+							switch y := r2.(type) {
+							case *ssa.BinOp:
+								if y.Op == token.ADD && y.X == v {
+									return w.instrPos(y)
+								}
+							case *ssa.Phi:
+								if g := grows(y, depth+1); g != "" {
+									return g
+								}
+							}
+						}
+						return ""
+					}
 					why := ""
-					if c.Referrers() == nil {
+					if tailIsParam(hf, pidx) {
+						// the function itself returns header + text: its result is the whole file
+						if at := grows(c, 0); at != "" {
+							why = "more text is appended behind header + text (at " + at + "): what it uses is not covered by the imports"
+						}
+					} else if c.Referrers() == nil {
 						why = "the header is not used"
 					} else {
 						for _, ref := range *c.Referrers() {
@@ -1628,26 +1653,6 @@ func goImportsUsed(w *World, wc *wireCtx, r *Report, prop string) {
 							if !sameText(bo.Y, x) {
 								why = "the text that follows the header is not the text the header was computed from"
 								continue
-							}
-							// nothing is appended behind header + text
-							var grows func(v ssa.Value, depth int) string
-							grows = func(v ssa.Value, depth int) string {
-								if depth > 4 || v.Referrers() == nil {
-									return ""
-								}
-								for _, r2 := range *v.Referrers() {
-									switch y := r2.(type) {
-									case *ssa.BinOp:
-										if y.Op == token.ADD && y.X == v {
-											return w.instrPos(y)
-										}
-									case *ssa.Phi:
-										if g := grows(y, depth+1); g != "" {
-											return g
-										}
-									}
-								}
-								return ""
 							}
 							if at := grows(bo, 0); at != "" {
 								why = "more text is appended behind header + text (at " + at + "): what it uses is not covered by the imports"
@@ -2061,4 +2066,28 @@ func wireKeyAsWritten(w *World, wc *wireCtx, r *Report, prop string) {
 		sort.Strings(bad)
 		r.fail(rule, key, "internal/parser", "a match key goes through "+strings.Join(bad, "; ")+": keys above the conversion's range (a u64 key field holds up to 18446744073709551615) are clamped to one value, string keys become 0 - the emitted table no longer maps the declared key to its packet")
 	}
+}
+
+// tailIsParam: every value fn returns is a concatenation whose last operand is its parameter pidx (header + text, text last).
+func tailIsParam(fn *ssa.Function, pidx int) bool {
+	if pidx < 0 || pidx >= len(fn.Params) {
+		return false
+	}
+	n := 0
+	for _, b := range fn.Blocks {
+		ret, ok := b.Instrs[len(b.Instrs)-1].(*ssa.Return)
+		if !ok {
+			continue
+		}
+		if len(ret.Results) != 1 {
+			return false
+		}
+		v := stripIdentity(ret.Results[0])
+		bo, ok := v.(*ssa.BinOp)
+		if !ok || bo.Op != token.ADD || stripIdentity(bo.Y) != ssa.Value(fn.Params[pidx]) {
+			return false
+		}
+		n++
+	}
+	return n > 0
 }
